@@ -88,7 +88,8 @@ def extract(repo):
     if i < 0 or j < 0:
         raise ValueError("SCOPEPrint: the defined-type section was not found")
     sec = re.sub(r"\s+", " ", re.sub(r"//[^\n]*|/\*.*?\*/", "", w[i:j], flags=re.S))
-    emit = r"i = TYPEget_head\( t \); if\( \( !i \|\| i->search_id == PROCESSED \) && t->search_id == CANPROCESS \) \{ TYPEprint_descriptions\( t, files, schema \); t->search_id = PROCESSED; \}"
+    # (`|| i->superscope != scope`: a renamed type of another schema does not block; no effect on a single schema, where every head is in the scope)
+    emit = r"i = TYPEget_head\( t \); if\( \( !i \|\| i->search_id == PROCESSED( \|\| i->superscope != scope)? \) && t->search_id == CANPROCESS \) \{ TYPEprint_descriptions\( t, files, schema \); t->search_id = PROCESSED; \}"
     if not re.search(emit, sec):
         raise ValueError("SCOPEPrint: the guarded emission of a defined type (head absent or PROCESSED) is no longer as modelled")
     if re.search(r"while\( 1 \) \{ skipped = 0; SCOPEdo_types", sec) and re.search(r"else if\( t->search_id == CANPROCESS \) \{ skipped\+\+; \}", sec) \
